@@ -4,7 +4,7 @@
    prints  M <id>#<k> <raw result>           for every body line except obj
            M <id>#<k>/p <projected result>   class i only
            S <id>#<k>/p <spec result>        class i only, where the spec judges the step
-   C20_VARIANT=today selects the unpatched transcription (default: patched, see REPORT-c20.md). *)
+   C20_VARIANT=today/patched select a fixed transcription (default: cfg_src, the configuration regenerated from the sources). *)
 open Model
 open Driver_common
 
@@ -73,7 +73,7 @@ let sres_s (r : sres) : string option =
   | SSnap l -> Some (snap_s l)
 
 let bucket = bytes_of_hex "62"
-let variant () = match Sys.getenv_opt "C20_VARIANT" with Some "today" -> cfg_today | _ -> cfg_patched
+let variant () = match Sys.getenv_opt "C20_VARIANT" with Some "today" -> cfg_today | Some "patched" -> cfg_patched | _ -> cfg_src
 
 type line = LObj of n list * n list | LItem of gitem * op option
 
